@@ -353,6 +353,22 @@ def klass_of(ring, src, m, x):
     return "ge-m" if x >= m else "small"
 
 
+def in_known_defect(ring, src, m, x):
+    """does the input lie in the domain of a defect that is NOT repaired in /repo (those fail however the domain object was obtained)"""
+    global _RULES
+    if _RULES is None:
+        _RULES = defect_rules()
+    for kl, rp, srcs, dom, what, fix in _RULES:
+        if src in srcs and rp(ring) and dom(ring, src, m, x):
+            return not (fix is not None and FIX.get(fix))
+    return False
+
+
+HOWS = ["copy", "assign-lo", "assign-hi", "defassign", "randiter", "copyassign"]
+HOW_TEXT = {"copy": "copy construction", "assign": "assignment over a domain of another modulus", "defassign": "assignment over a default-constructed domain",
+            "randiter": "RandIter copy + RandIter::operator= (assigns the ring it refers to)", "copyassign": "copy construction of an assigned domain"}
+
+
 def findings():
     """one entry per (code site, input class); instantiations that share the template are merged"""
     out = {}
@@ -406,7 +422,7 @@ def run_impl(binary, lines, timeout=600):
 def gen_cases(rings, cards, rng, tier):
     quick = tier == "quick"
     nrand = 3 if quick else 20
-    cases = []     # (op, ring, src, p, k, x)
+    cases = []     # (op, ring, src, p, k, x, how)
     for ring in rings:
         if ring not in cards:
             continue
@@ -418,9 +434,33 @@ def gen_cases(rings, cards, rng, tier):
                 hi = 2**200
             fields = [(m, 1) for m in moduli(ring, lo, hi, rng, tier)]
         elt = RINGS[ring][1]
-        for (p, k) in fields:
+        for fi, (p, k) in enumerate(fields):
             m = p**k
-            cases.append(("const", ring, "-", p, k, 0))
+            cases.append(("const", ring, "-", p, k, 0, ""))
+            # the same ring obtained in other ways: copy, assignment over a domain of a smaller / larger / no modulus, RandIter copies
+            others = [f for f in fields if f != (p, k)]
+            hows = []
+            if others:
+                flo, fhi = min(others, key=lambda f: f[0]**f[1]), max(others, key=lambda f: f[0]**f[1])
+                hows = [("copy", 0, 1), ("assign", flo[0], flo[1]), ("assign", fhi[0], fhi[1]), ("defassign", 0, 1),
+                        ("randiter", fhi[0] if fi % 2 == 0 else flo[0], fhi[1] if fi % 2 == 0 else flo[1]), ("copyassign", flo[0], flo[1])]
+                if quick:
+                    hows = [hows[(fi + j) % len(hows)] for j in range(3)] if fi >= 2 else hows
+            for h in hows:
+                hs = "%s:%d:%d" % h
+                cases.append(("const", ring, "-", p, k, 0, hs))
+                for src in ["i32", "u32", "i64", "u64", "f", "d", "I", "i8", "u16"]:
+                    pool = [-1, -2, -(m // 2), -(m // 2) - 1, -m, -m - 1, -m + 1, m - 1, m, m + 1, m // 2, m // 2 + 1, 2 * m + 1, -3 * m - 1, 1, 0,
+                            -(m * m) - 1, m * m + 1, rng.range(-3 * m, 3 * m), -rng.bits(40), rng.bits(62)]
+                    if src in SRC_RANGE:
+                        lo_s, hi_s = SRC_RANGE[src]
+                        pool += [lo_s, lo_s + 1, hi_s, hi_s - 1]
+                        pool = [v for v in pool if lo_s <= v <= hi_s]
+                    elif src in ("f", "d"):
+                        pool = [round_to_float(v, 24 if src == "f" else 53) for v in pool] + [2**63, -2**63, 2**31, -2**31]
+                    pool = sorted(set(v for v in pool if not in_known_defect(ring, src, m, v)))
+                    for x in pool:
+                        cases.append(("init", ring, src, p, k, x, hs))
             for src in MAIN_SRCS + SMALL_SRCS + RECINT_SRCS:
                 vals = values(src, m, rng, nrand, quick)
                 if src in RECINT_SRCS and not elt.startswith("ru"):
@@ -431,16 +471,21 @@ def gen_cases(rings, cards, rng, tier):
                 elif src in SMALL_SRCS and quick:
                     vals = vals[::2] + vals[-2:]
                 for x in vals:
-                    cases.append(("init", ring, src, p, k, x))
+                    cases.append(("init", ring, src, p, k, x, ""))
                 if src in ("i64", "I", "d", "u32", "ll"):
                     for x in vals[::3]:
-                        cases.append(("rt", ring, src, p, k, x))
+                        cases.append(("rt", ring, src, p, k, x, ""))
     return cases
 
 
 def model_line(c):
-    op, ring, src, p, k, x = c
+    op, ring, src, p, k, x, how = c
     return "%s %s %s %d %d" % (op, ring, src, p**k, x)
+
+
+def impl_line(c):
+    op, ring, src, p, k, x, how = c
+    return "%s%s %s %s %d %d %d" % (op, "@" + how if how else "", ring, src, p, k, x)
 
 
 def main(tier, replay=None):
@@ -504,7 +549,7 @@ def main(tier, replay=None):
         cases = []
         for f in rp.get("failing_inputs", []):
             c = f["case"]
-            cases.append((c["op"], c["ring"], c["src"], int(c["p"]), int(c["k"]), int(c["x"])))
+            cases.append((c["op"], c["ring"], c["src"], int(c["p"]), int(c["k"]), int(c["x"]), c.get("how", "")))
     else:
         cases = gen_cases(rings, cards, rng, tier)
     by_ring = {}
@@ -513,7 +558,7 @@ def main(tier, replay=None):
 
     def run_ring(ring):
         cs = by_ring[ring]
-        io = run_impl(himpl[ring], ["%s %s %s %d %d %d" % c for c in cs])
+        io = run_impl(himpl[ring], [impl_line(c) for c in cs])
         mo = None
         if drv:
             rc, mo, merr = vf.run_lines(drv, "".join(model_line(c) + "\n" for c in cs), timeout=1500)
@@ -534,7 +579,7 @@ def main(tier, replay=None):
             chk.broke(mo)
             mo = None
         for i, (c, line) in enumerate(zip(by_ring[ring], io)):
-            op, _, src, p, k, x = c
+            op, _, src, p, k, x, how = c
             m = p**k
             t = line.split()
             ml = mo[i].split() if mo is not None else None
@@ -542,9 +587,14 @@ def main(tier, replay=None):
             inst = "%s::init(%s)" % (RING_CXX[ring], SRC_CXX.get(src, src))
             if line == "NOFORM":
                 continue
+            if how:
+                hn = how.split(":")[0]
+                site = "%s: init/convert on a domain obtained by %s" % (RING_CXX[ring], HOW_TEXT[hn])
+                inst += " [domain by %s]" % how
+                dist["how/" + hn] = dist.get("how/" + hn, 0) + 1
             dist[ring + "/" + src] = dist.get(ring + "/" + src, 0) + 1
-            chk.count((op, ring, src, p, k, x), nontrivial=(abs(x) >= m or x < 0))
-            case = {"op": op, "ring": ring, "src": src, "p": p, "k": k, "x": str(x), "call": inst}
+            chk.count((op, ring, src, p, k, x, how), nontrivial=(abs(x) >= m or x < 0))
+            case = {"op": op, "ring": ring, "src": src, "p": p, "k": k, "x": str(x), "how": how, "call": inst}
             kl = klass_of(ring, src, m, x) if op != "const" else "constants"
             nfail = len(chk.failing)
             if len(chk.cov["samples"]) < 12 and i % 1499 == 7:
@@ -572,7 +622,7 @@ def main(tier, replay=None):
                                                "convert of the canonical element is not its canonical lift")
                             break
                 if len(chk.failing) != nfail:
-                    bad_init.add((ring, src, p, k, x))
+                    bad_init.add((ring, src, p, k, x, how))
                 # correspondence
                 if ml is not None and len(chk.failing) == nfail and ml[0] not in ("NOMODEL",):
                     if ml[0] == "UB":
@@ -585,7 +635,7 @@ def main(tier, replay=None):
                                       % (inst, m, x, ml[0], got_m))
             elif op == "rt":
                 want_lift = lift(ring, m, x)
-                if (ring, src, p, k, x) in bad_init or (kind != "tab" and t[0] != str(canon(ring, m, x))):
+                if (ring, src, p, k, x, how) in bad_init or (kind != "tab" and t[0] != str(canon(ring, m, x))):
                     continue            # init itself is off: reported by the init case of the same input
                 for form, got in zip(RT_FORMS, t[1:]):
                     rg = CONV_RANGE[form]
